@@ -1,0 +1,15 @@
+//go:build verif
+
+package protobuild
+
+// Contracts for contract-based verification (/verif, property C14): the list of files handed to the
+// linker is a canonical (sorted, duplicate-free) enumeration of the package's file set, although it
+// is collected by ranging over a map, whose order is arbitrary.
+
+//@ func (*PackageSet).CompilePackage
+//@   assert at resolveAll#0 sorted: sortedStrs(filenames)
+//@   assert at resolveAll#0 nodup: nodupStrs(filenames)
+//@   assert at resolveAll#0 sound: forall i int :: 0 <= i && i < len(filenames) ==> has(pkg.Files, filenames[i])
+//@   assert at resolveAll#0 complete: forall k string :: has(pkg.Files, k) ==> inStrs(filenames, k)
+//@   loop 0 invariant len(filenames) == $mappos && 0 <= $mappos && $mappos <= $maplen
+//@   loop 0 invariant forall j int :: 0 <= j && j < len(filenames) ==> filenames[j] == $mapkey(j)
